@@ -583,7 +583,7 @@ func emitPrimCases(w *caseWriter, r *rng, thorough bool) {
 		}
 	}
 	if thorough {
-		emitPrimExhaustive(w)
+		emitPrimExhaustive(w, exhaustive2)
 	}
 }
 
@@ -591,7 +591,11 @@ func emitPrimCases(w *caseWriter, r *rng, thorough bool) {
 // variant whose prefixes are one or two bytes wide - the inputs on which a reader's decisions (short read, length
 // claim against what is left, empty list, pad stripping) are all exercised - so that on this scope the hand-written
 // model and the Go helpers are compared completely, not sampled.
-func emitPrimExhaustive(w *caseWriter) {
+// set by -exhaustive: also the complete 0/1/2-byte sweep of the readers (the explicit thorough tier); without it only the
+// small-alphabet fixed fields (what an escalated quick run affords)
+var exhaustive2 bool
+
+func emitPrimExhaustive(w *caseWriter, twoBytes bool) {
 	var specs []primSpec
 	for _, le := range []bool{false, true} {
 		for _, ity := range []string{"U8", "I8", "U16", "I16"} {
@@ -644,6 +648,9 @@ func emitPrimExhaustive(w *caseWriter) {
 				w.rpCase(p10, y)
 			}
 		}
+	}
+	if !twoBytes {
+		return
 	}
 	in := make([]byte, 0, 2)
 	for _, p := range specs {
